@@ -393,9 +393,40 @@ def generate_wide(rng):
     return {"prop": ID, "cfg": {}, "cmds": cmds}
 
 
+def generate_long(rng):
+    """A session down one very long path: the trie the peer describes has a segment (or a
+    chain of segments) of many hundreds of nibbles, as tries over long keys have; the fog's
+    answers about keys near it must not depend on how long the shared part is."""
+    cmds = []
+    total = rng.choice([300, 600, 1100, 1100, 2500])
+    pieces = rng.choice([1, 1, 2, 5])
+    spine = [rng.randrange(16) for _ in range(total)]
+    cuts = sorted(rng.sample(range(1, total), pieces - 1)) if pieces > 1 else []
+    bounds = [0] + cuts + [total]
+    a, b = sorted(rng.sample(range(16), 2))
+    for r in (0, 1):
+        for lo, hi in zip(bounds, bounds[1:]):
+            cmds.append({"op": "deliver", "r": r, "prefix": spine[:lo], "segs": [spine[lo:hi]], "why": "deliver"})
+        cmds.append({"op": "deliver", "r": r, "prefix": spine, "segs": [[a], [b]], "why": "deliver"})
+        near = [spine + [a, 0], spine + [a], spine + [b], spine + [(a + 1) % 16], spine + [0], spine + [15, 15], spine, spine[:-1], spine[:-1] + [spine[-1] ^ 1], spine[: total // 2], []]
+        for _ in range(rng.choice([4, 8])):
+            cmds.append({"op": "query", "r": r, "kind": rng.choice(["unknown", "right"]), "qk": rng.choice(near)})
+        if rng.random() < 0.5:
+            cmds.append({"op": "restart", "r": r})
+            cmds.append({"op": "query", "r": r, "kind": rng.choice(["unknown", "right"]), "qk": rng.choice(near)})
+        if rng.random() < 0.5:
+            cmds.append({"op": "deliver", "r": r, "prefix": spine + [a], "segs": [], "why": "deliver"})
+            cmds.append({"op": "query", "r": r, "kind": rng.choice(["unknown", "right"]), "qk": rng.choice(near)})
+    cmds.append({"op": "converge"})
+    return {"prop": ID, "cfg": {}, "cmds": cmds}
+
+
 def generate(rng):
-    if rng.random() < 0.015:
+    r0 = rng.random()
+    if r0 < 0.015:
         return generate_wide(rng)
+    if r0 < 0.025:
+        return generate_long(rng)
     maxdepth = rng.choice([1, 2, 3, 4, 6])
     budget = rng.choice(deep([5, 10, 20, 40], [10, 20, 40, 80, 160]))
     responses = []
